@@ -401,7 +401,12 @@ def part_weights(ctx, chosen, rng):
     # its weight is tiny.  Deterministic reproduction: the start proposal is pinned near the kinematic edge (every
     # uniform number drawn inside cal_max_weight = 0.97, a value the generator can draw); then random starts,
     # seeded from VERIF_SEED.  Every "weight above one after cal_max_weight" is reported under that one key.
-    confs = [(3.0, [0.5, 0.3, 0.7]), (5.0, [1.0, 1.0, 1.0, 0.5]), (4.0, [0.5, 0.3, 0.0, 0.7, 0.2]), (10.0, [0.1, 0.2, 0.3, 0.1, 0.2, 0.3])]
+    # Independent of how good the search is: the search never returns a point worse than its start x0, and the new bound
+    # is (old bound) x (weight found) x 1.001, so the weight AT THE START POINT is at most 1/1.001 afterwards, whatever
+    # the units (the last two configurations have an initial bound far above 1: masses in MeV, a heavy parent).  That is
+    # reported under its own key (cal_max_weight:start_point_weight_above_one), not under the known finding.
+    confs = [(3.0, [0.5, 0.3, 0.7]), (5.0, [1.0, 1.0, 1.0, 0.5]), (4.0, [0.5, 0.3, 0.0, 0.7, 0.2]), (10.0, [0.1, 0.2, 0.3, 0.1, 0.2, 0.3]),
+             (3000.0, [500.0, 300.0, 700.0]), (80.0, [1.0, 2.0, 1.5, 0.5])]
     worst = 0.0
     orig_uniform = tf.random.uniform
 
@@ -413,12 +418,25 @@ def part_weights(ctx, chosen, rng):
         for rep in range(3 if quick else 6):
             try:
                 g = PhaseSpaceGenerator(m0, ms)
+                x0 = None
                 if rep == 0:
                     tf.random.uniform = pinned
+                    # the start point of the search, drawn exactly as cal_max_weight draws it
+                    old_gen = g.mass_generator
+                    g.mass_generator = [None for _ in old_gen]
+                    try:
+                        x0 = [tf.constant(np.asarray(i)) for i in g.generate_mass(1)]
+                    finally:
+                        g.mass_generator = old_gen
                 try:
                     g.cal_max_weight()
                 finally:
                     tf.random.uniform = orig_uniform
+                if x0 is not None:
+                    w0 = float(np.asarray(g.get_weight(x0)).reshape(-1)[0])
+                    if not (0 <= w0 <= 1 / 1.001 * (1 + 1e-9)):
+                        ctx.violation("cal_max_weight:start_point_weight_above_one:n=%d" % len(ms), {"m0": m0, "masses": ms, "weight_at_the_start_point_after_cal_max_weight": w0,
+                                                                                                      "expected_at_most": 1 / 1.001})
                 w = np.asarray(g.get_weight(g.generate_mass(K)))
             except Exception as e:
                 ctx.violation("cal_max_weight:raise:n=%d" % len(ms), {"m0": m0, "masses": ms, "error": repr(e)})
